@@ -15,6 +15,11 @@ typedef std::vector<uint8_t> Bytes;
 struct SlipHarness : Harness {
     const char *name() const override { return "slipsim"; }
     std::vector<std::string> props() const override { return {"C12"}; }
+    std::vector<std::string> probes(const std::string &) const override {
+        return {"garbage_ends_in_esc", "garbage_without_delimiter", "garbage_esc_followed_by_end", "sof_first_frame_lost", "empty_frame_sof", "empty_frame_classic",
+                "sink_error_on_escaped_octet", "encoder_source_error", "encoder_sink_error", "decoder_source_error", "decoder_sink_error", "illegal_sequence_reported",
+                "resynchronised_after_garbage", "concatenated_frames", "worst_case_length_reached"};
+    }
     uint64_t runs(const std::string &, const Tier &t) const override { return t.thorough() ? 30000000 : 2500000; }
 
     Json describe(const std::string &) const override {
@@ -310,10 +315,5 @@ struct SlipHarness : Harness {
 
 int main(int argc, char **argv) {
     SlipHarness h;
-    for (const char *p : {"probe.garbage_ends_in_esc", "probe.garbage_without_delimiter", "probe.garbage_esc_followed_by_end", "probe.sof_first_frame_lost",
-                          "probe.empty_frame_sof", "probe.empty_frame_classic", "probe.sink_error_on_escaped_octet", "probe.encoder_source_error",
-                          "probe.encoder_sink_error", "probe.decoder_source_error", "probe.decoder_sink_error", "probe.illegal_sequence_reported",
-                          "probe.resynchronised_after_garbage", "probe.concatenated_frames", "probe.worst_case_length_reached"})
-        (void)counters().id(p);
     return sim_main(argc, argv, h);
 }
